@@ -11,7 +11,7 @@ CLAIMS = {
    note="Trusted: clang 14 parser/Sema, the extractor, tables/c15.json (named symbol + reason). Analysed on template patterns, so all if-constexpr arms are covered. The unbounded deserialisation reads are listed in known_findings.json with their ASan replay.",
    tech="static analysis: custom clang AST member-coverage, path, inventory and information-flow rules (E1/E1b/E1c/E5/E6a/E10/R3b)", ref="DESIGN.md 4/C15"),
  "C01": dict(
-   text="Static decision of representation-invariant clauses of the simplex tree that the read interfaces depend on: (R1) every creation of nodes is followed on every path by registration in the label lists, (R2) every path that destroys nodes or a Siblings updates dimension_/dimension_to_be_lowered_ (flag and remove_if-predicate idioms understood, helper obligations moved to callers), (R3) every user-callable creating function can raise dimension_ and (R3b) every creating path of a function that maintains dimension_ itself considers the bound, (R4) leaf convention on delete/new Siblings, (R5) no descent through children() of a node whose has_children() was not established on the path, (R6) a per-label intrusive node list is only destroyed under an emptiness test, (R7) rec_equal, evaluated on all 8 valuations of (left has children, right has children, children equal), continues iff both sides agree. Necessary conditions only; the content of the tree is not decided.",
+   text="Static decision of representation-invariant clauses of the simplex tree that the read interfaces depend on: (R1) every creation of nodes is followed on every path by registration in the label lists, (R2) every path that destroys nodes or a Siblings updates dimension_/dimension_to_be_lowered_ (flag and remove_if-predicate idioms understood, helper obligations moved to callers), (R3) every user-callable creating function can raise dimension_ and (R3b) every creating path of a function that maintains dimension_ itself considers the bound, (R4) leaf convention on delete/new Siblings, (R5) no descent through children() of a node whose has_children() was not established on the path, (R6) a per-label intrusive node list is only destroyed under an emptiness test, (R7) rec_equal, evaluated on all 8 valuations of (left has children, right has children, children equal), continues iff both sides agree, (R8) the three-state result of an inserting call (created / existing and lowered / existing and unchanged, derived from insert_node_ on all valuations) gates the propagation of the filtration value to further faces soundly: it runs in every state in which something changed. Necessary conditions only; the content of the tree is not decided.",
    note="Trusted: clang 14 parser/Sema, class-local call resolution by name, tables/c01.json (exempt sites, one reason each). Throwing paths carry no obligation.",
    tech="static analysis: structured path rules with class-local may/must effect summaries (E2/E2g), guard-dominance rules, finite predicate enumeration of rec_equal", ref="DESIGN.md 4/C01"),
  "C10": dict(
